@@ -13,7 +13,9 @@ RULE = ("quadruples (Y, X, f, g, flag): base pair from the C01 families plus ide
         "40 000 .. 200 000 regenerated from (family, n, seed, recoding); the real code runs on "
         "(Y, X) and on (f(Y), g(X)), each is compared with the Coq model and, where the theorem applies, with each other; "
         "non-trivial = both sides take >= 2 values and at least one of f, g is not the identity; distinct = distinct quadruples")
-THEOREMS = ["C02_core_relabel", "C02_veq_spec", "C02_selfpair_exact", "C02_entry_relabel", "C02_prefix_refuted"]
+THEOREMS = ["C02_core_relabel", "C02_veq_spec", "C02_selfpair_exact", "C02_entry_relabel_offdiag", "C02_entry_relabel_flag_off",
+            "C02_diag_relabel_refuted", "C02_prefix_refuted"]
+DIAG = {"Y": [0, 1, 0, 1, 2, 2]}          # C02_diag_relabel_refuted: (Y, Y) scores ln 3, (Y, Y + 10) scores ln 2 with the flag on
 KINDS = ["identity", "perm", "offset", "reverse", "sparse", "affine"]
 WITNESS = {"Y": [0, 1, 0, 1, 2, 2, 0, 1], "X": [1, 0, 1, 0, 2, 2, 1, 0]}
 
@@ -150,6 +152,7 @@ def evaluate(pid, quads):
                 inv_ok = inv_diff <= b[1]["tolerance"] + r[1]["tolerance"]
         # self-pair rule on the model side (C02_selfpair_exact): effective flag = flag and not identical
         rule_ok = (b[2][3] == (q["flag"] and q["Y"] != q["X"])) and (r[2][3] == (q["flag"] and q["fY"] != q["gX"]))
+        rule_ok = rule_ok and c01.py_terms(q["Y"], q["X"], q["flag"]) == b[2] and c01.py_terms(q["fY"], q["gX"], q["flag"]) == r[2]
         out.append(dict(base=b, rel=r, applicable=applicable, inv_ok=inv_ok, inv_diff=inv_diff, model_inv=model_inv,
                         rule_ok=rule_ok))
     return out
@@ -236,7 +239,15 @@ def check(run, replay):
         for fl in (True, False):
             quads.append(_mk(WITNESS["Y"], WITNESS["X"], {a: a for a in range(3)}, {a: a + 10 for a in range(3)}, fl,
                              "witness", "identity", "offset"))
+        # the diagonal witness: one side of an identical pair recoded (invariance is NOT claimed; both scores must equal the model)
+        for fl in (True, False):
+            quads.append(_mk(DIAG["Y"], DIAG["Y"], {a: a for a in range(3)}, {a: a + 10 for a in range(3)}, fl,
+                             "diag-witness", "identity", "offset"))
         quads += gen_quads(run.rng, run.tier, 150 if run.tier == "quick" else 900)
+        # one n = 3000 quadruple with >= 1500 distinct values per side: holds py_terms / np_terms to Coq at the largest modelled size
+        xc = c01.xcheck_cases(run.rng, True, 1)[0]
+        quads.append(_mk(xc["Y"], xc["X"], relabel(run.rng, xc["Y"], "reverse"), relabel(run.rng, xc["X"], "perm"), True,
+                         "xcheck-3000", "reverse", "perm"))
         if run.tier == "thorough":
             # exhaustive small scope: every pair of length <= 4 over 3 codes, both flags, order-reversing sparse f and offset g
             f = {a: 1000 - 7 * a for a in range(3)}
@@ -295,13 +306,13 @@ def check(run, replay):
                mirror_bad is None, json.dumps(mirror_bad)[:400] if mirror_bad else "")
     if mirror_bad:
         run.violation("broken-obligation", "mirror-consistency", found_input=False, extra=mirror_bad)
-    run.oblige("correspondence:impl(Y,X) and impl(fY,gX) = model within tolerance; impl invariant where C02_entry_relabel applies",
+    run.oblige("correspondence:impl(Y,X) and impl(fY,gX) = model within tolerance; impl invariant where C02_entry_relabel_offdiag applies",
                nbad == 0, "%d of %d quadruples fail" % (nbad, len(quads)) if nbad else
                "worst |impl-model| = %.2f * 2^-24 * (sum|terms|+1e-6), allowed %.0f" % (worst, c01.TOL_FACTOR))
     if replay is None:
         sc, stt = [], []
         for q, e in zip(quads, ev):
-            if len(q["Y"]) <= 400 and len(sc) < 150:
+            if len(q["Y"]) <= 400 and len(sc) < 150 or q.get("fam") == "xcheck-3000":
                 sc.append({"Y": q["Y"], "X": q["X"], "flag": q["flag"]})
                 stt.append(e["base"][2])
         small_ct = vlib.run_impl("impl_c01_gen.py", {"scale": [], "small": sc})["small"]
@@ -315,8 +326,10 @@ def check(run, replay):
     run.samples = [{k: (v[:30] if isinstance(v, list) else v) for k, v in q.items()} for q in quads[:3]]
     run.assumptions += [
         "recodings keep codes in [0, 2^20) (quantifier of the property); the theorems hold for any injective maps on Z",
-        "for flag = True invariance of the ENTRY POINT is claimed (and tested) only when recoding does not change whether the "
-        "two vectors are identical (hypothesis of C02_entry_relabel); both scores are still compared with the model",
+        "DOCUMENTED DEVIATION from the literal first sentence: with the flag on, invariance of the ENTRY POINT holds (and is tested) "
+        "exactly off the diagonal, i.e. when recoding does not change whether the two vectors are identical (hypothesis of "
+        "C02_entry_relabel_offdiag; necessity shown by C02_diag_relabel_refuted: Y = X = [0,1,0,1,2,2] scores ln 3, Y vs X+10 "
+        "scores ln 2); both scores are still compared with the model",
         "'up to rounding' = tolerance 8*2^-24*(sum|terms|+1e-6) per score (see C01)",
     ]
     run.trusted += [
